@@ -44,6 +44,11 @@ def run(ctx):
     for k, (kind, aln) in enumerate(alns):
         for f in FMTS:
             path = os.path.join(sc, "c06_%d.%s" % (k, f))
+            if k % 6 == 1:
+                # the path of the output file is no part of the alignment: doubled separators, nested and dotted directory names
+                sub = os.path.join(sc, "out.d", "run1")
+                os.makedirs(sub, exist_ok=True)
+                path = [sc + "//c06_%d.%s" % (k, f), sub + "//c06_%d.%s" % (k, f), os.path.join(sc, "out.d//run1", "c06_%d.x.%s" % (k, f))][k % 3]
             lines.append("writealn %s %s %d %s" % (path, f, 1 if kind == "dna" else 0, alngen.aln_args(aln)))
             lines.append("readfile %s" % path)
             meta.append((k, f, path))
